@@ -49,6 +49,7 @@ def setup(rep, tier):
     rep.minimum('R10.6', 6)
     rep.minimum('R10.7', 1)
     rep.minimum('R10.8', 7)
+    rep.minimum('R10.9', 2)
 
 
 # ---------------------------------------------------------------- R10.1
@@ -627,7 +628,44 @@ def r10_8(rep, prog):
     return n
 
 
+# ------------------------------------------------------------------ R10.9
+def r10_9(rep, prog):
+    """the packet-does-not-fit refusal (OPUS_BUFFER_TOO_SMALL) belongs to normal decoding only.  With decode_fec set a
+    frame_size shorter than the packet is a legal request (the decoder conceals frame_size samples); the single-stream
+    decoder returns from its FEC branch before that test, so the multistream decoder - which must equal stand-alone
+    decoding stream by stream - may not reach its own copy of the test when decode_fec is non-zero."""
+    n = 0
+    for fname in ('opus_decode_native', 'opus_multistream_decode_native'):
+        if not prog.has_fn(fname):
+            continue
+        f = prog.fn(fname)
+        pi = f.param_index('decode_fec')
+        if pi is None:
+            continue
+        cf = cfgm.CFG(f)
+        rets = [(b, i, s_) for b, i, s_ in T.returns_of(cf) if len(s_) > 1 and sx.int_val(sx.strip(s_[1])) == -2]
+        if not rets:
+            continue
+        rep.functions.add(fname)
+        feas = decide.feasible_blocks(cf, {('param', pi): 1}, entry=True)
+        for b, i, s_ in rets:
+            # only the refusals that compare a packet duration with frame_size
+            g = cfgm.guards_of(cf, b)
+            if not any(c is not None and any(sx.kind(y) == 'param' and y[2] == 'frame_size' for y in sx.walk(c)) for c, pol, gb in g[:3]):
+                continue
+            n += 1
+            inst = '%s:%s refuses a packet longer than frame_size only in normal decoding' % (prog.config, fname)
+            where = '%s:%s' % (f.file, sx.line(s_))
+            if b in feas:
+                rep.violated('R10.9', inst, where, 'the OPUS_BUFFER_TOO_SMALL return under `%s` is reachable with decode_fec != 0: a FEC request shorter than the packet is refused here while the single-stream decoder conceals it' % ' && '.join(sx.show(c) for c, pol, gb in g[:2] if c is not None)[:80],
+                             key=fname + ':fec-capacity')
+            else:
+                rep.holds('R10.9', inst, where, 'not reachable with decode_fec != 0')
+    return n
+
+
 def check(rep, prog, tier):
+    r10_9(rep, prog)
     r10_7(rep, prog)
     r10_8(rep, prog)
     r10_6(rep, prog)
